@@ -4,7 +4,7 @@ CONSTANTS
   NLog = 1
   MaxSeq = 1
   Caps = {0, 1, 2, 99}
-  StoreChoices <- AllPrefixes
+  StoreChoices <- EmptyOrFull
   LogsChoices <- LogsAll
   MaxMut = 0
   MutKinds = {}
